@@ -499,6 +499,7 @@ func c17Ingest(out *vlib.Out) {
 // ---------------------------------------------------------------------------------------------
 
 func TestVerifC17Lib(t *testing.T) {
+	os.Setenv("PHANTOM_SUBNET_LOCATION", "./test/phantom_subnets.toml")
 	var glob c17Buf
 	golog.SetOutput(&glob)
 	Stat()
